@@ -62,8 +62,8 @@ pub fn universe() -> Vec<RuleSpec> {
     r.time = Some(vec![(Some("09:00:00".into()), Some("17:00:00".into()))]);
     v.push(r);
     // r7 dynamic host with a second expression (same literal suffix) and a dynamic path
-    let mut r = mk("r7", "r7 dynamic host [a-z]+ & dynamic path /a/@n");
-    r.host = Some("@g.example".into());
+    let mut r = mk("r7", "r7 dynamic host Shop-@g.example (starts upper-case) & dynamic path /a/@n");
+    r.host = Some("Shop-@g.example".into());
     r.markers.push(("g".into(), "[a-z]+".into()));
     r.path = "/a/@n".into();
     r.markers.push(("n".into(), "[0-9a-z]+".into()));
@@ -73,11 +73,21 @@ pub fn universe() -> Vec<RuleSpec> {
     r.path = "/a/@z".into();
     r.markers.push(("z".into(), ".+?".into()));
     v.push(r);
+    // r9 / r10: the same static path in the same time group (one bucket holding two routes)
+    for id in ["r9", "r10"] {
+        let mut r = mk(id, &format!("{id} static /a + time[09,17)"));
+        r.time = Some(vec![(Some("09:00:00".into()), Some("17:00:00".into()))]);
+        v.push(r);
+    }
+    // r11: a weekdays group next to the time group
+    let mut r = mk("r11", "r11 static /a + weekdays[Mon,Tue]");
+    r.weekdays = Some(vec!["Mon".into(), "Tue".into()]);
+    v.push(r);
     v
 }
 
 pub fn world(desc: &Value) -> World {
-    let max_dev = desc["max_dev"].as_u64().unwrap_or(1) as usize;
+    let max_dev = (desc["max_dev"].as_u64().unwrap_or(1) % 10) as usize;
     let cfgs: Vec<Cfg> = desc["cfg_bits"].as_array().map(|a| a.iter().map(|b| Cfg::from_bits(b.as_u64().unwrap_or(0) as u32)).collect()).unwrap_or_else(|| vec![Cfg::from_bits(8)]);
     World::new(universe(), cfgs, max_dev, desc.clone())
 }
@@ -116,6 +126,10 @@ pub fn run_histories(prop: &'static str, checks: Checks, tier: Tier, plans: Vec<
         let w = world(&desc);
         let mut model = Model::new(&ctx, &w, checks);
         model.cache_ops = cache_ops;
+        // max_dev >= 10 marks a "core" plan: only the first variants (r1a .. r4b) plus r9 / r10 may be inserted, explored deeper
+        if max_dev >= 10 {
+            model.insertable = (0..w.universe.len()).filter(|i| *i <= 5 || w.universe[*i].id == "r9" || w.universe[*i].id == "r10").collect();
+        }
         let st = explore(&ctx, &model, depth);
         states += st.states;
         transitions += st.transitions;
@@ -148,8 +162,8 @@ pub fn run_histories(prop: &'static str, checks: Checks, tier: Tier, plans: Vec<
 
 pub fn run(tier: Tier) -> i32 {
     let plans = match tier {
-        Tier::Quick => vec![(vec![8, 7], 5, 1, true)],
-        Tier::Thorough => vec![(vec![8, 7, 0, 15], 6, 1, true), (vec![8], 5, 2, true)],
+        Tier::Quick => vec![(vec![7, 8], 4, 1, true), (vec![8, 7], 5, 11, true)],
+        Tier::Thorough => vec![(vec![8, 7, 0, 15], 5, 1, true), (vec![8, 7], 6, 11, true), (vec![8], 4, 2, true)],
     };
     run_histories("C02", CHECKS, tier, plans)
 }
